@@ -72,12 +72,35 @@ def _k(ctx, tag, imports, typ, fn, path, what, ordered=False, shard=250):
             ctx.first_disagreement = {'what': what, 'case_index': bad[0], 'source': src, 'model_term_and_observed': terms[bad[0]][:3000]}
     return len(terms), len(bad)
 
+GENP = os.path.join(vf.COQ, 'Gen', 'GenPanicSites.v')
+
+
+def regen_panics(ctx):
+    """re-list the explicit panics, unchecked type assertions and goroutine starts of the package;
+    write Gen only when changed"""
+    tmp = os.path.join(ctx.out, 'GenPanicSites.v')
+    rc, out = vf.sh([os.path.join(vf.BIN, 'c01'), '-extract-panics', vf.REPO, '-gen', tmp], timeout=120)
+    if rc != 0:
+        ctx.broken.append('listing the panic sites of the package failed: ' + out[-400:])
+        return
+    new = open(tmp).read()
+    old = open(GENP).read() if os.path.exists(GENP) else None
+    if new != old:
+        open(GENP, 'w').write(new)
+        ctx.notes.append('coq/Gen/GenPanicSites.v regenerated (content changed)')
+
+
 def run(ctx):
     ok, log = vf.build_harness(ctx, ['c01'])
     if not ok:
         ctx.broken.append('harness does not build against the repository: ' + log[-400:])
         vf.finish(ctx, 'proof', [])
+    regen_panics(ctx)
     nthm, ndis, _ = vf.check_props(ctx)
+    if 'PanicSites' in (getattr(ctx, 'coq_log', '') or ''):
+        known = open(os.path.join(vf.COQ, 'Wf', 'PanicSites.v')).read()
+        new = [l.strip().rstrip(';') for l in open(GENP).read().split('\n') if l.strip().startswith('(') and l.strip().rstrip(';')[:-1] not in known]
+        ctx.broken.append('coq/Wf/PanicSites.v (panic_sites_known_b): the package has an explicit panic, a type assertion without comma-ok or a goroutine start that is not one of the known ones: ' + ' '.join(new[:5]))
     gate = vf.grep_gate()
     if gate:
         ctx.broken.append('forbidden constructs in coq/: ' + '; '.join(gate[:5]))
